@@ -5,6 +5,7 @@ import RsModel.Lemmas.ModeTree2
 import RsModel.Lemmas.ModeMap
 import RsModel.Lemmas.ModeCold
 import RsModel.Lemmas.NameLevel
+import RsModel.Lemmas.LinesTree
 /-!
 # C03 — `map()` attributes every position exactly as the chunk stream does
 (T1 of DESIGN: the codec step of the chain.)
@@ -142,5 +143,24 @@ theorem c03_names (s : Src) (h : s.ModeHypC) (hn : s.ids.Nodup) (σF σN : Store
     (attrFrom (decode sm.mappings) startPos s.src).map (Option.map (resolveMF sm))
       = (attrN emptyS emptyN (s.stream ⟨true, false⟩ σN).1.evs).map (Option.map RLoc.toN) :=
   getMap_names s h hn σF σN hcF hcN final hsmall sm hm
+
+
+/-! ## columns = false -/
+
+/-- **C03, columns = false** ("the line's first mapped segment", compared at (file, original line) granularity): for every tree of
+the domain (`ModeHypL`: all node kinds except the combinator; sorted leaf maps; CachedSource nodes on cold caches) and every
+generated line, the first mapped segment of the SourceMap `get_map` returns points to the same source index and original line as
+the first mapped chunk on that line of the stream an outside caller obtains; the sources are announced alike (`c03_lines_decls`),
+so the index is the same file.  Chain: lines-only codec (C12) ∘ text-less = normal per line (`Src.m3l`; for ConcatSource only the
+line offsets and the index translation matter — unmapped closing mappings play no role). -/
+theorem c03_lines (s : Src) (h : s.ModeHypL) (hn : s.ids.Nodup) (σF σN : Store) (hcF : Cold σF s.ids) (hcN : Cold σN s.ids) (final : Bool)
+    (hsmall : ∀ m ∈ chunkMs (s.stream ⟨false, true⟩ σF).1.evs, ∀ o, m.orig = some o → o.src < U31 ∧ o.line < U31)
+    (sm : SMap) (hm : (getMap s ⟨false, final⟩ σF).1 = some sm) (L : Nat) (hL : 0 < L) :
+    lookupLines (decode sm.mappings) L = lookupLines (chunkMs (s.stream ⟨false, false⟩ σN).1.evs) L :=
+  getMap_lines s h hn σF σN hcF hcN final hsmall sm hm L hL
+
+theorem c03_lines_decls (s : Src) (h : s.ModeHypL) (hn : s.ids.Nodup) (σF σN : Store) (hcF : Cold σF s.ids) (hcN : Cold σN s.ids) :
+    declsOf (s.stream ⟨false, true⟩ σF).1.evs = declsOf (s.stream ⟨false, false⟩ σN).1.evs :=
+  (Src.m3l s h hn σF σN hcF hcN).decls
 
 end Rs
